@@ -160,3 +160,28 @@ def require_actions(res, names, module):
     missing = [n for n in names if res.actions.get(n, (0, 0))[1] == 0]
     if missing:
         raise MachineryError(f"vacuity: actions never taken in {module}: {missing}")
+
+
+def _sanitize(x):
+    """JSON for TLC: no nulls (JsonDeserialize rejects them), integers within 32 bits, no floats."""
+    if x is None:
+        return "none"
+    if isinstance(x, bool):
+        return x
+    if isinstance(x, int):
+        return x if -(2**31) < x < 2**31 else str(x)
+    if isinstance(x, float):
+        return repr(x)
+    if isinstance(x, dict):
+        return {str(k): _sanitize(v) for k, v in x.items()}
+    if isinstance(x, (list, tuple)):
+        return [_sanitize(v) for v in x]
+    return x
+
+
+def write_json(path, obj):
+    import json
+
+    with open(path, "w") as f:
+        json.dump(_sanitize(obj), f)
+    return path
